@@ -30,6 +30,10 @@ TOP = {
         "PV.C02_unit_left", "PV.C02_unit_right", "PV.C02_adjoint", "PV.C02_Htilde_star",
         "PV.C03_gauge",
     ],
+    "NonHermProof": [
+        "PV.NH.inv_left", "PV.NH.inv_right", "PV.NH.C05_inverse_left", "PV.NH.C05_inverse_right", "PV.NH.C05_gauge",
+        "PV.NH.X_comm", "PV.NH.main_similarity", "PV.NH.C05_similarity", "PV.NH.C05_eliminated",
+    ],
 }
 
 
@@ -127,7 +131,7 @@ def parse(out, work):
         lines = open(path).read().split("\n")
         cur = None
         for i, l in enumerate(lines, 1):
-            mm = re.match(r"\s*(?:theorem|lemma|def|abbrev)\s+(\w+)", l)
+            mm = re.match(r"\s*(?:theorem|lemma|def|abbrev)\s+([\w.]+)", l)
             if mm:
                 cur = mm.group(1)
             decl_of[(f"PV/{mod}.lean", i)] = cur
